@@ -524,7 +524,15 @@ func eval(t *opspace.Transition) verdict {
 				symptom, detail = "state-changed", fmt.Sprintf("the operation failed with %q, sent no mutating request, but the state differs", res.Err)
 			}
 			if symptom != "" {
-				add("A", fmt.Sprintf("A-refuse|%s|%s|%s", shape, symptom, strings.Join(desc, "+")),
+				// a missing refusal depends on what the object looks like; a refusal that comes too late does not
+				keyDesc := desc
+				if symptom != "no-error" {
+					keyDesc = nil
+					for _, p := range conflicts {
+						keyDesc = append(keyDesc, would[p].Kind)
+					}
+				}
+				add("A", fmt.Sprintf("A-refuse|%s|%s|%s", shape, symptom, strings.Join(keyDesc, "+")),
 					fmt.Sprintf("%s without take-ownership over %s that exist(s) and is/are not owned by %s/%s must be refused before any mutation: %s",
 						op.Kind, strings.Join(desc, ", "), name, hx.Namespace, detail), conflicts)
 			} else {
@@ -916,7 +924,10 @@ func (x *explorer) scenario(drv string, cx ctxDef, mask int, pl [3]int) {
 
 	// follow-ups from the reached state
 	hist := t.PostHist
-	if len(hist) == 0 || hist[len(hist)-1].Info.Status != rspb.StatusDeployed {
+	if len(hist) == 0 {
+		return
+	}
+	if st := hist[len(hist)-1].Info.Status; st != rspb.StatusDeployed && st != rspb.StatusFailed {
 		return
 	}
 	var fus []hx.Op
